@@ -209,6 +209,20 @@ pub(crate) struct WithSpec<T> {
     important: bool,
 }
 impl<T: Clone> WithSpec<T> {
+    /// Position in the cascade by importance and origin, in increasing
+    /// priority: agent, user, author, author !important, user !important,
+    /// agent !important.
+    fn cascade_rank(important: bool, origin: StyleOrigin) -> u8 {
+        match (important, origin) {
+            (false, StyleOrigin::None) | (false, StyleOrigin::Agent) => 0,
+            (false, StyleOrigin::User) => 1,
+            (false, StyleOrigin::Author) => 2,
+            (true, StyleOrigin::Author) => 3,
+            (true, StyleOrigin::User) => 4,
+            (true, StyleOrigin::None) | (true, StyleOrigin::Agent) => 5,
+        }
+    }
+
     pub(crate) fn maybe_update(
         &mut self,
         important: bool,
@@ -217,27 +231,16 @@ impl<T: Clone> WithSpec<T> {
         val: T,
     ) {
         if self.val.is_some() {
-            // We already have a value, so need to check.
-            if self.important && !important {
-                // important takes priority over not important.
+            // We already have a value, so the new declaration has to win the
+            // cascade: first importance and origin, then specificity (which
+            // includes "inline style beats selectors"), then source order
+            // (the later declaration wins a tie).
+            let mine = Self::cascade_rank(self.important, self.origin);
+            let theirs = Self::cascade_rank(important, origin);
+            if theirs < mine {
                 return;
             }
-            // importance is the same.  Next is checking the origin.
-            {
-                use StyleOrigin::*;
-                match (self.origin, origin) {
-                    (Agent, Agent) | (User, User) | (Author, Author) => {
-                        // They're the same so continue the comparison
-                    }
-                    (mine, theirs) => {
-                        if (important && theirs > mine) || (!important && mine > theirs) {
-                            return;
-                        }
-                    }
-                }
-            }
-            // We're now from the same origin an importance
-            if specificity < self.specificity {
+            if theirs == mine && specificity < self.specificity {
                 return;
             }
         }
